@@ -21,7 +21,7 @@ type c06Case struct {
 	Seq     []string `json:"msgs"`
 	Offered string   `json:"offered_nund"` // "" = no fee-denom coin
 	Extra   bool     `json:"extra_denom"`
-	Recheck bool     `json:"recheck"` // CheckTx in re-check mode (what the mempool runs after every commit)
+	Recheck bool     `json:"recheck"`          // CheckTx in re-check mode (what the mempool runs after every commit)
 	Granter bool     `json:"self_fee_granter"` // the fee-granter field names the payer itself (legal, needs no allowance)
 	tx      model.Tx
 	req     *big.Int
